@@ -18,10 +18,13 @@ PID = "C15"
 FUNCTIONS = ["UnitDatabase.CheckCategoryUnit memo (_category_unit_valid)", "UnitDatabase.quantities_cache / ObtainQuantity", "UnitDatabase.GetValidUnits",
              "AbstractValueWithQuantityObject.GetValidUnits", "Quantity.CheckValue with the captured CategoryInfo", "UnitDatabase.AddUnit/AddUnitBase/AddCategory (invalidation)",
              "UnitDatabase.Convert/GetInfo/GetDefaultCategory/FindUnitCase/GetUnits/GetQuantityTypes", "Scalar/Array/FractionScalar construction and IsValid"]
+NQ, NR = 43, 11
 BOUNDS = {
-    "quick": "amounts and limits: all reals; pre-state: length(m, cm) + time(s) with categories length, depth(min 0); histories: one of 30 queries (read-only or failing), "
-             "then one of 9 registrations (accepted or rejected), then the battery of all 30 queries compared warm vs fresh; all 30x9 histories",
-    "thorough": "same with two queries before the registration (all 30x30x9) and a second registration after the first battery (seeded 4000)",
+    "quick": "amounts and limits: all reals; pre-state: length(m, cm) + time(s) + force per velocity with categories length, depth(min 0), width, damping; histories: one of "
+             "%d queries (read-only or failing), then one of %d registrations (accepted or rejected), then the battery of all queries, each answer compared with the answer of "
+             "the same query on its OWN brand-new database built from the same registrations; all %dx%d histories, plus 16 histories with two registrations in a row and 20 with "
+             "two arithmetic queries in a row" % (NQ, NR, NQ, NR),
+    "thorough": "same with two queries before the registration (seeded 7000 of the %dx%dx%d) and a second registration after the first battery (seeded 4000)" % (NQ, NQ, NR),
 }
 ASSUMPTIONS = ["A-FP", "'fresh database built from the same registrations' = the pre-state registrations plus the history's ACCEPTED registrations, in order",
                "memo tables are not part of the registry snapshot (their invisibility is exactly the second clause)"]
@@ -125,7 +128,6 @@ def registrations(V):
     ]
 
 
-NQ, NR = 43, 11
 
 
 def items(tier, seed):
@@ -133,7 +135,7 @@ def items(tier, seed):
     out = [{"qs": [q], "rs": [r]} for q in range(NQ) for r in range(NR)]
     if tier != "quick":
         allq = [(a, b, r) for a in range(NQ) for b in range(NQ) for r in range(NR)]
-        out += [{"qs": [a, b], "rs": [r]} for a, b, r in allq]
+        out += [{"qs": [a, b], "rs": [r]} for a, b, r in rng.sample(allq, 7000)]
         out += [{"qs": [rng.randrange(NQ)], "rs": [rng.randrange(NR), rng.randrange(NR)]} for _ in range(4000)]
     # two registrations in a row with the whole battery asked in between (a unit's default category registered before / after the unit)
     for pair in ((9, 10), (10, 9), (0, 1), (4, 6)):
